@@ -61,7 +61,135 @@ OPS = [(0, 0), (0, 1), (0, 2), (0, 3), (1, 0), (1, 1), (1, 3), (2, 0)]
 PARTS = [(k, op, cond) for k in mstore.KINDS for (op, cond) in OPS]
 
 
+# ------------------------------------------------------------------ the same step through the HTTP layer
+from xv.env import mweb  # noqa: E402
+from xv.env import world as Wm  # noqa: E402
+from xv.oracles import rfc7232, storespec as SP  # noqa: E402
+
+WNAMES = ["a.ics", "b.ics", "n.ics"]
+
+
+def _web_state(app, wsgi, prefix):
+    """Observable state of the calendar: PROPFIND Depth 1 listing + GET of every listed member."""
+    r = mweb.call(app, "PROPFIND", mweb.CAL + "/", headers=[("Depth", "1")], xml=mweb.propfind_body("{DAV:}getetag"),
+                  prefix=prefix, wsgi=wsgi)
+    if r.kind != "multistatus":
+        return None
+    out = {}
+    base = prefix.rstrip("/") + mweb.CAL + "/"
+    for st in r.statuses:
+        if st.href == base:
+            continue
+        if not st.href.startswith(base):
+            return None
+        name = st.href[len(base):]
+        g = mweb.call(app, "GET", mweb.CAL + "/" + name, prefix=prefix, wsgi=wsgi)
+        if g.status_class != "2xx":
+            return None
+        out[name] = g.body
+    return out
+
+
+def body_web_step(c0, c1, target, body, cond):
+    method, wsgi, prefix = ctx.PART
+    S = _store.pre_state([c0, c1, b""], 2)
+    if not SP.invariant(S):
+        return (True, "pre-invalid")
+    w = mweb.fresh_world(S, {"c.vcf": b"v1"})
+    app = mweb.make_app()
+    name = WNAMES[target]
+    cur = ('"' + mstore.expected_etag("tree", S[name]) + '"') if name in S else None
+    headers = []
+    im = inm = None
+    if cond == 1:
+        im = cur if cur is not None else '"zz"'
+    elif cond == 2:
+        im = '"zz"'
+    elif cond == 3:
+        inm = "*"
+    elif cond == 4:
+        im = "*"
+    if im is not None:
+        headers.append(("If-Match", im))
+    if inm is not None:
+        headers.append(("If-None-Match", inm))
+    ab_before = {f: v for f, v in w.files.items() if f.startswith(mweb.ROOT + mweb.AB)}
+    path = mweb.CAL + "/" + name
+    if method == "PUT":
+        r = mweb.call(app, "PUT", path, headers=headers, body=body, content_type="text/calendar", prefix=prefix, wsgi=wsgi)
+        decision = rfc7232.decide("PUT", cur, im, inm)
+        if decision == "412":
+            want, S2 = "412", S
+        else:
+            o, S2 = SP.put(S, name, body)
+            want = {"ok": "2xx", "invalid": "412", "duplicate": "412"}[o]
+    elif method == "DELETE":
+        r = mweb.call(app, "DELETE", path, headers=headers, prefix=prefix, wsgi=wsgi)
+        decision = rfc7232.decide("DELETE", cur, im, None)
+        if decision == "404":
+            want, S2 = "404", S
+        elif decision == "412":
+            want, S2 = "412", S
+        else:
+            o, S2 = SP.delete(S, name)
+            want = "2xx"
+    elif method == "POST":
+        r = mweb.call(app, "POST", mweb.CAL + "/", body=body, content_type="text/calendar", prefix=prefix, wsgi=wsgi)
+        if not SP.valid("x.ics", body):
+            want, S2 = "412", S
+        else:
+            o, _ = SP.put(S, "\x00new.ics", body)
+            want, S2 = ("2xx", None) if o == "ok" else ("412", S)
+    else:  # GET
+        r = mweb.call(app, "GET", path, headers=headers[:0], prefix=prefix, wsgi=wsgi)
+        want, S2 = ("2xx" if name in S else "404"), S
+        if name in S and r.status_class == "2xx" and r.body != S[name]:
+            return (False, "GET:wrong-body")
+    cls = method + ":" + want
+    if r.status_class != want:
+        return (False, cls)
+    # post-state through the protocol, by this app and by a restarted one
+    import xandikos.web as Wb
+    for restart in (False, True):
+        if restart:
+            Wb.open_store_from_path.cache_clear()
+            app = mweb.make_app()
+        obs = _web_state(app, wsgi, prefix)
+        if obs is None:
+            return (False, cls)
+        if S2 is not None:
+            if obs != S2:
+                return (False, cls)
+        else:
+            # POST add-member: exactly one new member holding the normalised body; Location resolves to it
+            new = [n for n in obs if n not in S]
+            if len(new) != 1 or {n: b for n, b in obs.items() if n in S} != S or obs[new[0]] != SP.norm("x.ics", body):
+                return (False, cls)
+            loc = r.header("Location")
+            if loc is None:
+                return (False, cls)
+            import urllib.parse
+            pi = urllib.parse.unquote(urllib.parse.urlsplit(loc).path)[len(prefix.rstrip("/")):]
+            g = mweb.call(app, "GET", pi, prefix=prefix, wsgi=wsgi)
+            if g.status_class != "2xx" or g.body != obs[new[0]]:
+                return (False, cls)
+    ab_after = {f: v for f, v in w.files.items() if f.startswith(mweb.ROOT + mweb.AB)}
+    return (ab_after == ab_before, cls)
+
+
+def h_web_step(c0: bytes, c1: bytes, target: int, body: bytes, cond: int) -> bool:
+    """
+    pre: len(c0) <= ctx.b.blen and len(c1) <= ctx.b.blen and len(body) <= ctx.b.blen
+    pre: 0 <= target <= 2 and 0 <= cond <= 4
+    post: _
+    """
+    return run(body_web_step, c0, c1, target, body, cond)
+
+
 _B = {"quick": {"n": 2, "blen": 2}, "thorough": {"n": 3, "blen": 3}}
+_WEB_PARTS_Q = [("PUT", False, "/"), ("PUT", True, "/dav/"), ("DELETE", False, "/"), ("DELETE", True, "/"),
+                ("POST", False, "/dav/"), ("GET", True, "/")]
+_WEB_PARTS_T = [(m, w, p) for m in ("PUT", "DELETE", "POST", "GET") for w in (False, True) for p in ("/", "/dav/")]
 
 HARNESSES = [
     Harness("store_step", h_store_step, body_store_step,
@@ -78,4 +206,20 @@ HARNESSES = [
                      "xandikos.store.git.TreeGitStore.delete_one", "xandikos.store.git.locked_index",
                      "xandikos.store.vdir.VdirStore.import_one", "xandikos.store.vdir.VdirStore.delete_one",
                      "xandikos.store.Store.get_file"]),
+    Harness("web_step", h_web_step, body_web_step,
+            classes=[("PUT:2xx", ("PUT", False, "/")), ("PUT:412", ("PUT", True, "/dav/")), ("DELETE:2xx", ("DELETE", False, "/")),
+                     ("DELETE:404", ("DELETE", True, "/")), ("DELETE:412", ("DELETE", False, "/")),
+                     ("POST:2xx", ("POST", False, "/dav/")), ("GET:404", ("GET", True, "/"))],
+            parts={"quick": _WEB_PARTS_Q, "thorough": _WEB_PARTS_T}, bounds=_B, budget={"quick": 90, "thorough": 600},
+            describe="one PUT / DELETE / POST(add-member) / GET request (conditional or not) through the real "
+                     "XandikosApp on a calendar in an arbitrary valid state: status class and the state observed "
+                     "through PROPFIND + GET (also after a restart) == specification; the address book is "
+                     "byte-identical; part = (method, WSGI?, route prefix)",
+            encodes=["xandikos.webdav.PutMethod.handle", "xandikos.webdav.DeleteMethod.handle",
+                     "xandikos.webdav.PostMethod.handle", "xandikos.webdav._do_get", "xandikos.webdav.PropfindMethod.handle",
+                     "xandikos.web.XandikosBackend.get_resource", "xandikos.web.ObjectResource.set_body",
+                     "xandikos.web.StoreBasedCollection.create_member", "xandikos.web.StoreBasedCollection.delete_member",
+                     "xandikos.web.StoreBasedCollection.get_member", "xandikos.web.StoreBasedCollection.members",
+                     "xandikos.web.open_store_from_path", "xandikos.store.git.TreeGitStore._import_one",
+                     "xandikos.store.git.TreeGitStore.delete_one"]),
 ]
